@@ -820,6 +820,62 @@ impl Bound {
     }
 }
 
+impl Bound {
+    /// Parse several inputs one after the other with ONE parser object (the public API takes
+    /// `&mut self`, so a parser may be reused, also after a failed parse). Fresh tree builder, fresh
+    /// actions and a fresh token stream per input.
+    pub fn parse_reusing(&self, inputs: &[&str], opts: &RunOpts) -> Vec<Outcome> {
+        let k = opts.k_override.unwrap_or(self.stream_k);
+        let trim = opts.trim || self.src.trim;
+        let mut res = vec![];
+        let finish = |r: Result<(), ParolError>, mut tb: RecTree, mut rec: Rec| -> Outcome {
+            let events = std::mem::take(&mut rec.events);
+            match r {
+                Ok(()) => {
+                    let pe = if !tb.stack.is_empty() { Some(format!("{} nodes left open", tb.stack.len())) } else { tb.protocol_error.clone() };
+                    Outcome { ok: true, err: None, err_debug_head: None, n_errors: None, events, tree: tb.root.take(), protocol_error: pe, budget_exceeded: rec.budget_exceeded }
+                }
+                Err(e) => {
+                    let (kind, head, n) = classify_err(&e);
+                    Outcome { ok: false, err: Some(kind), err_debug_head: Some(head), n_errors: n, events, tree: None, protocol_error: None, budget_exceeded: rec.budget_exceeded }
+                }
+            }
+        };
+        match &self.tables {
+            Tables::Ll { las, prods, .. } => {
+                let mut p = LLKParser::new(self.start, las, prods, self.tnames, self.ntnames);
+                if trim {
+                    p.trim_parse_tree();
+                }
+                if opts.recovery_disabled || self.src.recovery_disabled {
+                    p.disable_recovery();
+                }
+                for input in inputs {
+                    let mut tb = RecTree::default();
+                    let mut rec = Rec::default();
+                    let ts = self.token_stream(input, k);
+                    let r = p.parse_into(&mut tb, ts, &mut rec);
+                    res.push(finish(r, tb, rec));
+                }
+            }
+            Tables::Lr { table, prods } => {
+                let mut p = LRParser::new(self.start, table, prods, self.tnames, self.ntnames);
+                if trim {
+                    p.trim_parse_tree();
+                }
+                for input in inputs {
+                    let mut tb = RecTree::default();
+                    let mut rec = Rec::default();
+                    let ts = self.token_stream(input, k);
+                    let r = p.parse_into(&mut tb, ts, &mut rec);
+                    res.push(finish(r, tb, rec));
+                }
+            }
+        }
+        res
+    }
+}
+
 /// pipeline + bind in one step
 pub fn generate_and_bind(par: &str, k_limit: usize, cfg: &GenCfg) -> Result<(Generated, Bound), PipeErr> {
     let g = pipeline(par, k_limit, cfg)?;
